@@ -310,9 +310,16 @@ func gen(r *hx.RNG, t *hx.Trace) tcase {
 		p   aro.PS
 	}
 	var inLoc []ent
+	// what LocRIB.RemovePath (Path.Compare: no OTC, no ASPathLen) can tell apart; two objects it cannot
+	// tell apart would make "the path we withdraw" ambiguous inside the Loc-RIB itself
+	compareKey := func(p aro.PS) string {
+		q := p
+		q.OTC, q.ASLen, q.Redist = 0, 0, 0
+		return q.Token()
+	}
 	present := func(e ent) bool {
 		for _, x := range inLoc {
-			if x.pfx == e.pfx && x.p.Token() == e.p.Token() {
+			if x.pfx == e.pfx && compareKey(x.p) == compareKey(e.p) {
 				return true
 			}
 		}
